@@ -140,3 +140,5 @@ func TestC18Cells(t *testing.T) { RunEnum(t, "C18", "matrix", enumDialCells, che
 func TestC18Rand(t *testing.T)  { RunProp(t, "C18", "hosts-and-replies", genDialCell, checkC18) }
 
 func TestC16(t *testing.T) { RunProp(t, "C16", "handshake-faults", genHSPath, checkC16) }
+
+func TestC03Sweep(t *testing.T) { RunEnum(t, "C03", "mask-carry-sweep", enumMaskSweep, checkMaskSweep) }
